@@ -255,6 +255,20 @@ fn nas_strings(tier: Tier) -> Vec<String> {
         let step = out.len() as f64 / cap as f64;
         out = (0..cap).map(|i| out[(i as f64 * step) as usize].clone()).collect();
     }
+    // equal values in very different spellings (always kept): whole numbers with many trailing zeros written
+    // out, with an exponent, with a fraction; the canonical form must not depend on the spelling
+    for k in [3usize, 15, 16, 17, 25] {
+        out.push(format!("1{}", "0".repeat(k)));
+        out.push(format!("1e{k}"));
+        out.push(format!("1E+{k}"));
+        out.push(format!("10e{}", k - 1));
+        out.push(format!("0.1e{}", k + 1));
+        out.push(format!("100.0e{}", k - 2));
+        out.push(format!("-25{}", "0".repeat(k)));
+        out.push(format!("-2.5e{}", k + 1));
+    }
+    out.sort();
+    out.dedup();
     out
 }
 
